@@ -55,7 +55,7 @@ def run_tlc(spec, cfg, workers=16, dump=None, simulate=None, depth=None, seed=No
     res = TLCResult()
     meta = scratch_dir("tlcmeta_")
     cfgpath = cfg if os.path.isabs(cfg) else os.path.join(CFG_DIR, cfg)
-    cmd = ["java", "-XX:+UseParallelGC"]
+    cmd = ["java", "-XX:+UseParallelGC", "-Xss16m"]
     if heap:
         # a bounded heap matters: with the JVM default (1/4 of RAM) page-faulting of the young
         # generation made small runs 4-10x slower on this machine
